@@ -28,6 +28,10 @@ class OriginFamily(ScenarioFamily):
         http2 = r.random() < 0.5
         http1 = not (http2 and r.random() < 0.25)
         pool = {"max_connections": r.choice([1, 2, 10, 10]), "http1": http1, "http2": http2}
+        rc = gen.mk_rng(seed, "c10ctx")
+        if rc.random() < 0.3:
+            # the ssl context has been used before (e.g. by a pool with other switches)
+            pool["ctx_alpn"] = rc.choice([["http/1.1", "h2"], ["h2"], ["http/1.1"], ["h2", "http/1.1"]])
         eps = {}
         # every (host, port) of the near-miss set exists; TLS ports are 443/8443
         for h in HOSTS:
